@@ -101,7 +101,12 @@ func (m *Mutable) Commit() (string, error) {
 
 // CommitTree writes a tree into a fresh mutable mount and commits it.
 func CommitTree(env *coreh.Env, staging, repo string, tree coreh.Tree, leaf uint32) (string, error) {
-	m, err := NewMutable(env, nil, repo, staging, leaf)
+	return CommitTreeAs(env, nil, staging, repo, tree, leaf)
+}
+
+// CommitTreeAs is CommitTree with the mount's store calls made by actor a (crashes, faults, gates).
+func CommitTreeAs(env *coreh.Env, a *memstore.Actor, staging, repo string, tree coreh.Tree, leaf uint32) (string, error) {
+	m, err := NewMutable(env, a, repo, staging, leaf)
 	if err != nil {
 		return "", err
 	}
